@@ -1,6 +1,8 @@
 #!/bin/bash
-# thorough tier: the quick rules, then the checker's self-test for this property (seeded mutants through the
-# go/packages overlay: every mutant must be reported, the unmodified tree must be silent).
+# thorough tier: the rules at tier "thorough", then the checker's self-test for this property: every mutant of
+# selftest/mutants.json and every kept seed of seeded/ is analysed through the go/packages overlay (never written
+# to /repo) and must be reported. The self-test result is merged into the evidence; it does not change the exit
+# code, which is the rules' verdict on /repo's current tree.
 set -u
 cd "$(dirname "$0")"
 export GOFLAGS=-mod=mod GOPROXY=off GOSUMDB=off GOTOOLCHAIN=local GOWORK=off
@@ -9,7 +11,7 @@ REPO="${VERIF_REPO:-/repo}"
 prop="$1"
 "$VERIF/bin/vcheck" -repo "$REPO" -verif "$VERIF" -prop "$prop" -tier thorough
 rc=$?
-if [ -x "$VERIF/selftest.sh" ]; then
-  "$VERIF/selftest.sh" "$prop" || { echo "ERROR property=$prop checker self-test failed"; [ $rc -eq 0 ] && rc=2; }
+if [ "$prop" != "all" ]; then
+  python3 "$VERIF/tools/selftest.py" "$prop" || true
 fi
 exit $rc
